@@ -25,7 +25,7 @@ for id in "$@"; do
   if VERIF_REPO="$WT" "$ROOT/scripts/build.sh" "$TMP" "${EXTRA[@]}" >"$TMP/build.log" 2>&1; then
     VERIF_BUDGET_S="${VERIF_BUDGET_S:-1500}" VERIF_ROOT="$SCR" VERIF_RACE_AUDIT=0 timeout 4000 "$TMP/verif" run "$id" "${TIER:-quick}" > "$TMP/run.log" 2>&1
     rc=$?
-    sig="$(grep -m1 signature "$TMP/run.log" | cut -c1-300 | tr '\t' ' ')"
+    sig="$(grep -a -m1 signature "$TMP/run.log" | cut -c1-300 | tr '\t' ' ')"
     if [ $rc -eq 0 ]; then res=MISSED; else res=caught; fi
     [ $rc -ne 0 ] && [ -z "$sig" ] && sig="exit $rc: $(tail -2 "$TMP/run.log" | tr '\n\t' '  ' | cut -c1-200)"
     printf '%s\t%s\t%s\t%s\n' "$name" "$id" "$res" "$sig" >> "$OUT"
